@@ -436,8 +436,11 @@ def _raster_pass(ctx, case, tmp, tree, pid, tf, res_arg, prefix, geom=None):
             d = np.minimum(d, sd_round_cone(P, X[p], X[c], R[p], R[c]))
     lit = img.transpose(1, 2, 0).ravel() > 0
     # sdflit evaluates distances in float32: allow 1e-3 plus a few float32 ulps of the largest
-    # coordinate (0.001 near the origin, ~0.03 at |x| = 3e4)
-    near = np.abs(d) < 1e-3 + 8 * 1.2e-7 * float(np.abs(X).max())
+    # coordinate (0.001 near the origin, ~0.1 at |x| = 3e4)
+    # (32 ulps: the rounded-cone distance is a chain of float32 differences, dot products and a
+    # square root; 20 ulps were observed once in 8e4 rasters at |x| ~ 1.2e3)
+    ulp_ = 1.2e-7 * float(np.abs(X).max())
+    near = np.abs(d) < min(1e-3 + 32 * ulp_, max(1e-3 + 8 * ulp_, 0.2 * float(st.min())))
     bad = ((d < 0) != lit) & ~near
     ctx.count("voxels_compared", int((~near).sum()))
     ctx.count("voxels_near_surface_skipped", int(near.sum()))
